@@ -96,7 +96,7 @@ func RunOn(w *World, steps []Step, h Hooks) *Result {
 		}
 		v := w.Apply(s)
 		res.Steps++
-		if w.Sim != nil {
+		if w.Sim != nil && !w.FreeHelpers {
 			tr.Add(s.ID, s.Op, countsString(w.Sim.Counts()), w.Sim.LogLen())
 		} else {
 			tr.Add(s.ID, s.Op)
@@ -119,7 +119,10 @@ func RunOn(w *World, steps []Step, h Hooks) *Result {
 		classify(w.Guard(h.Prop, h.Prop+".oracle", "end", func() *Violation { return h.End(w) }))
 	}
 	if w.Sim != nil {
-		tr.Add(w.Sim.Digest(), countsString(w.Sim.Totals()))
+		tr.Add(w.Sim.Digest())
+		if !w.FreeHelpers {
+			tr.Add(countsString(w.Sim.Totals()))
+		}
 	}
 	res.Trace = tr.Sum()
 	return res
